@@ -15,6 +15,7 @@
 package bmdrv
 
 import (
+	"errors"
 	"fmt"
 	"math/big"
 	"math/rand"
@@ -507,6 +508,7 @@ type sys struct {
 	dir    string
 	db     walletdb.DB
 	bh     headerfs.BlockHeaderStore
+	fs     *failStore
 	fh     headerfs.FilterHeaderStore
 	bm     *neutrino.VerifBM
 	peers  []*neutrino.ServerPeer // index = peer id - 1
@@ -519,6 +521,35 @@ type sys struct {
 	lastBatch []*node
 	lastGood  *node
 	ftip      int
+}
+
+// failStore is the block header store handed to the block manager: the real store, except that
+// the n-th coming WriteHeaders / RollbackLastBlock call can be made to fail (an I/O error).  The
+// driver itself reads, and imports, through the real store underneath.
+type failStore struct {
+	headerfs.BlockHeaderStore
+	failWrite    int // 1 = the next WriteHeaders fails
+	failRollback int // k = the k-th RollbackLastBlock from now fails
+}
+
+func (f *failStore) WriteHeaders(hs ...headerfs.BlockHeader) error {
+	if f.failWrite > 0 {
+		f.failWrite--
+		if f.failWrite == 0 {
+			return errors.New("injected: short write")
+		}
+	}
+	return f.BlockHeaderStore.WriteHeaders(hs...)
+}
+
+func (f *failStore) RollbackLastBlock() (*headerfs.BlockStamp, error) {
+	if f.failRollback > 0 {
+		f.failRollback--
+		if f.failRollback == 0 {
+			return nil, errors.New("injected: truncate failed")
+		}
+	}
+	return f.BlockHeaderStore.RollbackLastBlock()
 }
 
 // template: creating the bbolt index (65 536 pre-made sub-buckets) costs ~0.3 s, so it is done once per
@@ -578,7 +609,8 @@ func newSys(w *world, npeers int, rng *rand.Rand) (*sys, error) {
 	if s.fh, err = headerfs.NewFilterHeaderStore(dir, db, headerfs.RegularFilter, &w.params, nil); err != nil {
 		return nil, err
 	}
-	if s.bm, err = neutrino.VerifNewBM(w.params, s.bh, s.fh, w.ts); err != nil {
+	s.fs = &failStore{BlockHeaderStore: s.bh}
+	if s.bm, err = neutrino.VerifNewBM(w.params, s.fs, s.fh, w.ts); err != nil {
 		return nil, err
 	}
 	for i := 0; i < npeers; i++ {
@@ -732,7 +764,11 @@ func (s *sys) dump(res string, best int, bl string) string {
 			fmt.Fprintf(&b, "C:%d:%d:%d:%d", s.idOf(&hd), x.Height(), n.FilterTipAtRecv, n.MemFilterTipAtRecv)
 		case *blockntfns.Disconnected:
 			tip := x.ChainTip()
-			fmt.Fprintf(&b, "D:%d:%d:%d", s.idOf(&hd), x.Height(), s.idOf(&tip))
+			st := 0
+			if n.StoredAtRecv {
+				st = 1
+			}
+			fmt.Fprintf(&b, "D:%d:%d:%d:%d", s.idOf(&hd), x.Height(), s.idOf(&tip), st)
 		default:
 			b.WriteString("X:0:0:0")
 		}
@@ -873,6 +909,49 @@ func (s *sys) classify(t *tr.W, batch, stored []*node) {
 	default:
 		t.Hit("in.fork.heavier")
 	}
+}
+
+// contradictCheckpoint returns a batch that extends the stored tip (which must lie on the main
+// chain) and carries, at the height of the next checkpoint, a valid header that is NOT the checkpoint.
+func (s *sys) contradictCheckpoint(rng *rand.Rand) []*node {
+	w := s.w
+	tp := s.stored[len(s.stored)-1]
+	t0 := int(tp.height)
+	if t0 >= len(w.main) || w.main[t0] != tp {
+		return nil
+	}
+	cpH := 0
+	for _, c := range w.params.Checkpoints {
+		if int(c.Height) > t0 && cpH == 0 {
+			cpH = int(c.Height)
+		}
+	}
+	if cpH == 0 {
+		return nil
+	}
+	var cands [][]*node
+	for _, x := range w.nodes {
+		if int(x.height) != cpH || x == w.main[cpH] {
+			continue
+		}
+		// walk up to the main chain; the junction must be at or above the stored tip
+		ok := true
+		a := x
+		for a != nil && !(int(a.height) < len(w.main) && w.main[a.height] == a) {
+			ok = ok && a.valid
+			a = a.parent
+		}
+		if a == nil || !ok || int(a.height) < t0 {
+			continue
+		}
+		b := append([]*node{}, w.main[t0+1:a.height+1]...)
+		b = append(b, pathTo(a, x)...)
+		cands = append(cands, b)
+	}
+	if len(cands) == 0 {
+		return nil
+	}
+	return cands[rng.Intn(len(cands))]
 }
 
 // filter hashes: any deterministic function of the block will do
@@ -1097,7 +1176,7 @@ func runCase(t *tr.W, rng *rand.Rand, nev int, script string) {
 
 	for ev := 0; ev < nev; ev++ {
 		p := 1 + rng.Intn(npeers)
-		x := rng.Intn(100)
+		x := rng.Intn(106)
 		switch {
 		case x < 14: // extend the stored tip
 			tp := tip()
@@ -1132,6 +1211,157 @@ func runCase(t *tr.W, rng *rand.Rand, nev int, script string) {
 				p = sp
 			}
 			headers(p, pathTo(fp, tgt), "warp")
+		case x >= 100 && x < 102: // a batch crossing the next checkpoint whose WRITE FAILS, then a
+			// second peer's batch that contradicts the checkpoint
+			tp := tip()
+			t0 := int(tp.height)
+			if t0 >= len(w.main)-1 || w.main[t0] != tp || s.back != tp {
+				continue
+			}
+			cpH := 0
+			for _, c := range w.params.Checkpoints {
+				if int(c.Height) > t0 && cpH == 0 {
+					cpH = int(c.Height)
+				}
+			}
+			end := min(len(w.main)-1, t0+1+rng.Intn(8))
+			if cpH > 0 && rng.Intn(4) > 0 {
+				end = min(len(w.main)-1, cpH+rng.Intn(2))
+			}
+			batch := append([]*node{}, w.main[t0+1:end+1]...)
+			if len(batch) == 0 {
+				continue
+			}
+			t.Hit("ev.headers.failwrite")
+			if cpH > 0 && end >= cpH {
+				t.Hit("ev.headers.failwrite.crosses-checkpoint")
+			}
+			hs := make([]*wire.BlockHeader, len(batch))
+			for i, n := range batch {
+				hs[i] = n.hdr
+			}
+			s.fs.failWrite = 1
+			r := guard(func() { s.bm.Headers(s.peers[p-1], hs) })
+			s.fs.failWrite = 0
+			t.Op(fmt.Sprintf("headersfw %d %s", p, ids(batch)), s.dump(r, 0, "[]"))
+			if b := s.contradictCheckpoint(rng); b != nil {
+				headers(1+p%npeers, b, "contradict-checkpoint")
+			}
+		case x >= 102 && x < 105: // headers (and filter headers) imported underneath + ResetHeaderState
+			tp := tip()
+			t0 := int(tp.height)
+			var blocks []*node
+			if t0 < len(w.main)-1 && w.main[t0] == tp && rng.Intn(5) > 0 {
+				m := 1 + rng.Intn(len(w.main)-1-t0)
+				if rng.Intn(2) == 0 {
+					m = len(w.main) - 1 - t0 // all the way: crosses every remaining checkpoint
+				}
+				blocks = append(blocks, w.main[t0+1:t0+1+m]...)
+			}
+			if len(blocks) > 0 {
+				bhs := make([]headerfs.BlockHeader, len(blocks))
+				for i, n := range blocks {
+					bhs[i] = headerfs.BlockHeader{BlockHeader: n.hdr, Height: uint32(n.height)}
+				}
+				if err := s.bh.WriteHeaders(bhs...); err != nil {
+					panic(err)
+				}
+				t.Hit("ev.import.blocks")
+			}
+			newTip := t0 + len(blocks)
+			nf := 0
+			if newTip > s.ftip && rng.Intn(3) > 0 {
+				nf = 1 + rng.Intn(newTip-s.ftip)
+				prev, _, err := s.fh.ChainTip()
+				if err != nil {
+					panic(err)
+				}
+				last := *prev
+				var fhs []headerfs.FilterHeader
+				chain := append(append([]*node{}, s.stored...), blocks...)
+				for h := s.ftip + 1; h <= s.ftip+nf; h++ {
+					fhh := filterHash(chain[h])
+					last = chainhash.DoubleHashH(append(fhh[:], last[:]...))
+					fhs = append(fhs, headerfs.FilterHeader{FilterHash: last})
+				}
+				fhs[len(fhs)-1].HeaderHash = chain[s.ftip+nf].hash
+				fhs[len(fhs)-1].Height = uint32(s.ftip + nf)
+				if err := s.fh.WriteHeaders(fhs...); err != nil {
+					panic(err)
+				}
+				t.Hit("ev.import.filters")
+			}
+			t.Hit("ev.importreset")
+			res := "ok"
+			r := guard(func() {
+				if err := s.bm.ResetHeaderState(); err != nil {
+					res = "err"
+				}
+			})
+			if r != "ok" {
+				res = r
+			}
+			t.Op(fmt.Sprintf("importreset %s %d", ids(blocks), nf), s.dump(res, 0, "[]"))
+			if nf > 0 || rng.Intn(2) == 0 {
+				backlog()
+			}
+			if b := s.contradictCheckpoint(rng); b != nil && rng.Intn(2) == 0 {
+				headers(p, b, "contradict-checkpoint")
+			}
+		case x == 105: // a reorganisation in which one RollbackLastBlock FAILS (the case ends here)
+			sp := s.peerID(s.bm.Digest().SyncPeer)
+			if sp == 0 {
+				continue
+			}
+			tipH := int32(len(s.stored) - 1)
+			floor := int32(0)
+			for _, c := range w.params.Checkpoints {
+				if c.Height <= tipH {
+					floor = c.Height
+				}
+			}
+			var cands [][]*node
+			for _, tgt := range w.nodes {
+				if s.onStored(tgt) {
+					continue
+				}
+				fp := tgt
+				for fp != nil && !s.onStored(fp) {
+					fp = fp.parent
+				}
+				if fp == nil || fp.height < floor || fp.height+2 > tipH {
+					continue
+				}
+				b := pathTo(fp, tgt)
+				ok := true
+				nw, ow := new(big.Int), new(big.Int)
+				for _, n := range b {
+					ok = ok && n.valid
+					nw.Add(nw, n.work)
+				}
+				for _, n := range s.stored[fp.height+1:] {
+					ow.Add(ow, n.work)
+				}
+				if ok && nw.Cmp(ow) > 0 {
+					cands = append(cands, b)
+				}
+			}
+			if len(cands) == 0 {
+				continue
+			}
+			t.Hit("ev.headers.failrollback")
+			b := cands[rng.Intn(len(cands))]
+			displaced := int(tipH) - (int(b[0].height) - 1)
+			k := 1 + rng.Intn(displaced)
+			hs := make([]*wire.BlockHeader, len(b))
+			for i, n := range b {
+				hs[i] = n.hdr
+			}
+			s.fs.failRollback = k
+			r := guard(func() { s.bm.Headers(s.peers[sp-1], hs) })
+			s.fs.failRollback = 0
+			t.Op(fmt.Sprintf("headersfrb %d %s %d", sp, ids(b), k), s.dump(r, 0, "[]"))
+			return
 		case x < 31: // a reorganisation and the new branch's filter headers with a SLOW notification sink,
 			// then a subscriber registers (backlog request from this goroutine)
 			sp := s.peerID(s.bm.Digest().SyncPeer)
@@ -1386,7 +1616,7 @@ func Run(t *tr.W, thorough bool) {
 	}
 	ncases *= tr.EnvInt("VERIF_BUDGET", 1)
 	if os.Getenv("VERIF_SEARCH") == "1" {
-		ncases = 800 // the search after a broken tie: wider than quick, but bounded (about a minute)
+		ncases = 3 * 120 // the search after a broken tie: three times the quick run
 	}
 	for i := 0; i < ncases; i++ {
 		runCase(t, rng, 18+rng.Intn(30), "")
